@@ -577,10 +577,20 @@ fn filters(r: &mut Runner, t: bool) {
     let sizes: &[usize] = if t { &[0, 1, 2, 3, 10, 99, 100, 101, 1000, 5000] } else { &[0, 1, 3, 10, 100, 101, 1000] };
     for &n in sizes {
         for b in [1usize, 2, 3, 7, 8, 9, 15, 16, 31, 32, 33, 63, 64] {
-            filter_case!(r, "BitFieldVec<usize>,[u64;2],FuseLge3Shards", n, &d, b, n == 1000 && b <= 16, W = usize, boxed = false, S = [u64; 2], E = FuseLge3Shards);
+            // false positives are counted for every width (for wide hashes the expected count is 0: band [0, 2])
+            filter_case!(r, "BitFieldVec<usize>,[u64;2],FuseLge3Shards", n, &d, b, n == 1000 || n == 10, W = usize, boxed = false, S = [u64; 2], E = FuseLge3Shards);
         }
         for b in 1..=8usize {
-            filter_case!(r, "BitFieldVec<u8>,[u64;2],FuseLge3Shards", n, &d, b, n == 1000, W = u8, boxed = false, S = [u64; 2], E = FuseLge3Shards);
+            filter_case!(r, "BitFieldVec<u8>,[u64;2],FuseLge3Shards", n, &d, b, n == 1000 || n == 10, W = u8, boxed = false, S = [u64; 2], E = FuseLge3Shards);
+        }
+        for b in [15usize, 16] {
+            filter_case!(r, "BitFieldVec<u16>,[u64;2],FuseLge3Shards", n, &d, b, n >= 10, W = u16, boxed = false, S = [u64; 2], E = FuseLge3Shards);
+        }
+        for b in [31usize, 32] {
+            filter_case!(r, "BitFieldVec<u32>,[u64;2],FuseLge3Shards", n, &d, b, n >= 10, W = u32, boxed = false, S = [u64; 2], E = FuseLge3Shards);
+        }
+        for b in [1usize, 63, 64] {
+            filter_case!(r, "BitFieldVec<u64>,[u64;2],FuseLge3Shards", n, &d, b, n >= 10, W = u64, boxed = false, S = [u64; 2], E = FuseLge3Shards);
         }
         filter_case!(r, "Box<[u8]>,[u64;2],FuseLge3Shards", n, &d, 8, n >= 10, W = u8, boxed = true, S = [u64; 2], E = FuseLge3Shards);
         filter_case!(r, "Box<[u16]>,[u64;2],FuseLge3Shards", n, &d, 16, n >= 10, W = u16, boxed = true, S = [u64; 2], E = FuseLge3Shards);
